@@ -350,6 +350,45 @@ class C04(Prop):
         lines += ["sz " + c for c in cmds]
         return E.Case(cid, lines, {"origin": origin, "kind": "sizes"})
 
+    def mapseq_case(self, cid, limit, ops, origin="boundary"):
+        ix = self.idx_or_default()
+        return E.Case(cid, ["cfgint %d %d" % (ix["cfgMaxMapping"], limit), "load sizes /c04/sizes", "ev sizes mapseq " + ",".join(ops)],
+                      {"origin": origin, "kind": "mapseq"})
+
+    def gen_mapseq(self, rng, cid):
+        """inserts and in-place `m += m2` on one mapping, each inside catch.  `present` = keys certainly in the mapping;
+        a failed `+=` is applied partially (which keys depends on the hash order), so its range is never used again"""
+        limit = rng.choice([8, 20, 50, 100])
+        present, ops, nxt = [], [], 0
+        count = 0                               # model of the size, to steer towards the limit
+        for _ in range(rng.range(3, 10)):
+            k = rng.weighted([("inew", 4), ("iold", 2), ("abs", 5)])
+            if k == "iold" and present:
+                ops.append("i%do" % rng.choice(present))
+            elif k == "abs":
+                n = rng.choice([0, 1, 3, limit // 2, limit - count, limit - count + 1, limit - count + 3, limit])
+                n = min(max(0, n), limit)       # the operand m2 is itself a mapping within the limit
+                overlap = rng.choice([0, 0, 1, 3]) if present else 0
+                overlap = min(overlap, n, len(present))
+                if overlap and sorted(present)[-overlap:] == list(range(nxt - overlap, nxt)):
+                    frm, new = nxt - overlap, n - overlap      # the range starts inside the keys inserted last
+                else:
+                    frm, new = nxt, n
+                ops.append("a%d:%d:%d" % (frm, n, new))
+                if count + new <= limit:
+                    present += list(range(max(frm, nxt), frm + n))
+                    count += new
+                else:
+                    count = limit                           # partially applied: exactly MAX keys
+                nxt = frm + n + 1000
+            else:
+                ops.append("i%dn" % nxt)
+                if count + 1 <= limit:
+                    present.append(nxt)
+                    count += 1
+                nxt += 1
+        return self.mapseq_case(cid, limit, ops, "generated")
+
     def boundary(self):
         N = Node
         B = []
@@ -407,6 +446,11 @@ class C04(Prop):
         B.append(self.mk("b-rec-locals", R(20), depth=150, stack=200))
         B.append(self.mk("b-c2-rec-locals", C(C(R(12, 1))), depth=150, stack=150))
         B.append(self.mk("b-nest", F(3, F(0, F(5, W(10)))), depth=12))
+        # mapping count bookkeeping across a partially applied `m += m2` (error path of add_to_mapping)
+        B.append(self.mapseq_case("b-map-absorb-over", 20, ["i0n", "a100:15:15", "a200:10:10", "i300n", "i301n", "a400:5:5", "i0o"]))
+        B.append(self.mapseq_case("b-map-absorb-exact", 20, ["a100:20:20", "i300n", "a400:1:1", "a100:20:0"]))
+        B.append(self.mapseq_case("b-map-absorb-empty", 8, ["a100:0:0", "a200:8:8", "i1n", "a300:8:8", "a400:1:1"]))
+        B.append(self.mapseq_case("b-map-absorb-overlap", 20, ["a100:12:12", "a109:12:9", "i500n"]))
         # sizes
         B.append(self.sizes_case("b-sz-array", {"array": 100, "string": 1000},
                                  ["allocate 100", "allocate 101", "allocate 0", "allocate -1", "allocate 4294967296",
@@ -601,7 +645,9 @@ class C04(Prop):
     def generate(self, rng, n, tier):
         out = []
         for i in range(n):
-            if i % 2 == 0:
+            if i % 8 == 7:
+                out.append(self.gen_mapseq(rng, "g%d" % i))
+            elif i % 2 == 0:
                 out.append(self.gen_machine(rng, "g%d" % i))
             else:
                 out.append(self.gen_sizes(rng, "g%d" % i))
